@@ -250,7 +250,8 @@ def print_assumptions(prop, module, theorems):
 
 
 def _print_assumptions(prop, module, theorems, d):
-    path = os.path.join(d, "Assume_%s.v" % prop)
+    # one file per (property, module): setup computes several of them at the same time
+    path = os.path.join(d, "Assume_%s_%s.v" % (prop, module.replace(".", "_")))
     with open(path, "w") as f:
         f.write("From GoSyn Require Import %s.\n" % module)
         for t in theorems:
